@@ -99,6 +99,22 @@ def ensureNoCycles (sims : List SimCfg) (orc : List Nat) : CycResult :=
     | some p => .cycle p
     | none => .ok
 
+/-! executable forms of the hypotheses of the completeness theorem (`MosaikProofs/Closure/Complete.lean`) -/
+
+/-- every connection's delay fits the depths of its two simulators -/
+def shapedB (sims : List SimCfg) : Bool :=
+  (List.range sims.length).all fun t => (sims.getD t {}).inputDelays.all fun sd =>
+    sd.2.pre == (sims.getD sd.1 {}).depth && sd.2.tiers.length == (sims.getD t {}).depth
+
+/-- `input_delays` has one entry per predecessor -/
+def nodupKeysB (sims : List SimCfg) : Bool :=
+  (List.range sims.length).all fun t => decide (((sims.getD t {}).inputDelays.map (·.1)).Nodup)
+
+/-- all connections have one cutoff (sufficient for `Uniform`; true for every scenario without groups) -/
+def constCutoffB (sims : List SimCfg) : Bool :=
+  let c := (((sims.flatMap (·.inputDelays)).head?).map (·.2.cutoff)).getD 1
+  (List.range sims.length).all fun t => (sims.getD t {}).inputDelays.all fun sd => sd.2.cutoff == c
+
 /-! ### `cache_triggering_ancestors` -/
 
 /-- `triggering_ancestors` of every simulator: `anc[dest]` = list of (ancestor, min delay) -/
